@@ -97,3 +97,59 @@ def _(c):
         ("assert", "type-carried-from-v1", "request_struct_class.API_VERSION >= 1 and a0 == self._coordinator_key"
          " and a1 == self._coordinator_type"),
     ])
+
+
+# ------------------------------------------------------------------------------ DescribeGroups
+classmodel("DescribeGroupsRequest", {"_groups": Opaque("Groups"), "_include_authorized_operations": BOOL})
+
+
+@contract("aiokafka.protocol.admin:DescribeGroupsRequest.build", "C11")
+def _(c):
+    """'authorized operations' of the statement's list"""
+    c.self_("DescribeGroupsRequest")
+    c.param("request_struct_class", Ref("ReqClass"))
+    c.returns(Ref("ReqStruct"))
+    c.call("request_struct_class", **STRUCT_CALL)
+    c.raises("authorized-operations-need-v3", "IncompatibleBrokerVersion",
+             when="request_struct_class.API_VERSION < 3 and self._include_authorized_operations", exact=True)
+    c.hook("before", "request_struct_class/1", [
+        ("assert", "groups-only-form-below-v3", "request_struct_class.API_VERSION < 3 and a0 == self._groups"),
+    ])
+    c.hook("before", "request_struct_class/2", [
+        ("assert", "flag-carried-from-v3", "request_struct_class.API_VERSION >= 3 and a0 == self._groups"
+         " and a1 == self._include_authorized_operations"),
+    ])
+    c.ensures("instance-of-the-negotiated-class", "result.g_class == request_struct_class")
+
+
+# --------------------------------------------------------------------------------------- Fetch
+classmodel("FetchRequest", {"_max_wait_ms": INT, "_min_bytes": INT, "_max_bytes": INT, "_isolation_level": INT,
+                            "_topics": Opaque("FetchTopics"), "_rack_id": STR})
+
+
+@contract("aiokafka.protocol.fetch:FetchRequest.build", "C11")
+def _(c):
+    """'isolation level' of the statement's list, for Fetch. Versions 0..4 only: from v5 on the builder assembles its
+    argument list dynamically (`request_struct_class(*args)`), outside the verified subset - every one of those versions
+    carries the isolation level (the rejection below is the only place it can be lost); their layout is the round-trip
+    stand-in's business."""
+    c.self_("FetchRequest")
+    c.param("request_struct_class", Ref("ReqClass"))
+    c.returns(Ref("ReqStruct"))
+    c.requires("0 <= request_struct_class.API_VERSION <= 4", "a-version-below-5")
+    c.call("request_struct_class", **STRUCT_CALL)
+    c.raises("isolation-level-needs-v4", "IncompatibleBrokerVersion",
+             when="request_struct_class.API_VERSION < 4 and self._isolation_level != 0", exact=True)
+    c.hook("before", "request_struct_class/6", [
+        ("assert", "v4-carries-the-isolation-level", "request_struct_class.API_VERSION == 4 and a0 == -1 and a1 == self._max_wait_ms"
+         " and a2 == self._min_bytes and a3 == self._max_bytes and a4 == self._isolation_level and a5 == self._topics"),
+    ])
+    c.hook("before", "request_struct_class/5", [
+        ("assert", "v3-form", "request_struct_class.API_VERSION == 3 and a0 == -1 and a1 == self._max_wait_ms"
+         " and a2 == self._min_bytes and a3 == self._max_bytes and a4 == self._topics"),
+    ])
+    c.hook("before", "request_struct_class/4", [
+        ("assert", "v0-v2-form", "request_struct_class.API_VERSION < 3 and a0 == -1 and a1 == self._max_wait_ms"
+         " and a2 == self._min_bytes and a3 == self._topics"),
+    ])
+    c.ensures("instance-of-the-negotiated-class", "result.g_class == request_struct_class")
